@@ -6,6 +6,7 @@
 #include "geo.hpp"
 
 struct ProjCtx {
+    double real_per_dbu = 0;   // precision / unit, never divided by `fine`
     double per_dbu;   // user units per database unit = precision / unit
     bool ok = true;   // false if something that should be on the lattice is not
     int64_t g(double x) { return lat(x, 1.0 / per_dbu, ok); }
@@ -145,6 +146,11 @@ static inline void proj_cell(W& w, const Cell* cell, ProjCtx& c, bool all_props)
         FlexPath* f = cell->flexpath_array[i];
         w.begin_obj().kb("simple", f->simple_path).kb("sw", f->scale_width);
         w.kv("nel", (int64_t)f->num_elements);
+        // spine tolerance in 1/1000 database unit (a loader's default is one database unit)
+        {
+            bool ign = true;
+            w.kv("tolp", c.real_per_dbu > 0 ? lat(f->spine.tolerance / c.real_per_dbu, 1000, ign) : 0);
+        }
         proj_pts(w, "spine", f->spine.point_array, c);
         w.key("els").begin_arr();
         for (uint64_t e = 0; e < f->num_elements; e++) {
@@ -249,7 +255,8 @@ static inline void proj_cell(W& w, const Cell* cell, ProjCtx& c, bool all_props)
 static inline void proj_library(W& w, const char* key, const Library& lib, bool all_props = false,
                                 double fine = 1.0) {
     ProjCtx c;
-    c.per_dbu = (lib.unit > 0 ? lib.precision / lib.unit : 1) / fine;
+    c.real_per_dbu = lib.unit > 0 ? lib.precision / lib.unit : 1;
+    c.per_dbu = c.real_per_dbu / fine;
     if (key) w.key(key);
     w.begin_obj();
     w_str(w, "name", lib.name);
